@@ -18,6 +18,6 @@ done
 sed "s#@REPO@#$REPO#" harness/Cargo.toml.in > harness/Cargo.toml
 [ -f harness/Cargo.lock ] || cp "$REPO/Cargo.lock" harness/Cargo.lock
 ( cd harness && cargo build --offline --release --quiet )
-echo "setup ok"
 # the variant of the harness with the crate feature improved_unicode (stream C14U)
-(cd harness && cargo build --offline --quiet --release --features improved --target-dir target-improved)
+( cd harness && cargo build --offline --quiet --release --features improved --target-dir target-improved )
+echo "setup ok"
